@@ -78,10 +78,10 @@ def run_case(case):
         out = {}
         for name, F in fields.items():
             sim.scatter(sim.f, F)
-            rho.getAllData()[:] = np.nan
+            rho.getAllData()[:] = complex(np.nan, np.nan) if use_complex else np.nan   # stale junk in BOTH parts of a complex grid
             dens_first.getRho(sim.f, rho)
             a = sim.block(rho)
-            rho.getAllData()[:] = np.nan
+            rho.getAllData()[:] = complex(np.nan, np.nan) if use_complex else np.nan   # stale junk in BOTH parts of a complex grid
             dens.getPerturbedRho(sim.f, rho)
             b = sim.block(rho)
             out[name] = (a, b)
